@@ -1,5 +1,9 @@
 import GB.C18.Proofs
 import GB.Generated.Lockset
+import GB.C02.Props   -- CONFINEMENT BACKING block at the end of this file
+import GB.C10.Props   -- idem
+import GB.C15.Props   -- idem
+import GB.C16.Props   -- idem
 /-
   C18 — property theorems. PARTIAL by nature (DESIGN.md 5.18): data-race freedom over all
   multi-core schedules is a property of the runtime; what is proved here is
@@ -82,3 +86,73 @@ theorem C18_mutex_exclusive (h : Holders) (l t1 t2 : Nat) (h1 : h l = some t1) (
 /-- Non-vacuity: a concrete well-formed trace meeting the hypotheses of `C18_common_lock_orders`. -/
 example : runEv (fun _ => none) [Ev.acq 1 7, Ev.acc 1 0, Ev.rel 1 7, Ev.acq 2 7, Ev.acc 2 1, Ev.rel 2 7] ≠ none := by
   decide
+
+
+/-! ## CONFINEMENT BACKING block: the non-mutex ordering arguments of `GB.C18.confinement`, as theorems of the
+    models that own them
+
+  The rows of the confinement table (GB/C18/Model.lean) name an ordering mechanism instead of a mutex. Four of the
+  mechanisms are invariants of LTS models proved in other slices (each tied to the code by its own slice's
+  correspondence run); they are restated here so that the lock-discipline result rests on kernel-checked statements
+  rather than on a comment:
+
+   * "send side / receive side, single owner" ........ `C18_backing_single_owner`, `C18_backing_incoming_call_rules`
+   * "pump, then handler after Forward returned" ..... `C18_backing_handler_after_pumps`
+   * "atomic publish + once + channel close→receive" . `C18_backing_wakeup_protocol`
+   * "poller goroutine only" ......................... `C18_backing_one_poller_per_target`
+
+  Not backed by a theorem (trusted, listed in the trusted base): "construction-time options" (Go evaluates option
+  closures inside the constructor call), "function-local builder", "gws read loop goroutine only" (library contract of
+  lxzan/gws with ParallelEnabled = false). -/
+section ConfinementBacking
+open GB.Fwd
+
+/-- Single owner of the stream operations inside Forward, in every reachable state (any client, target, schedule):
+    `Incoming.Recv` / `outgoing.Send` / `outgoing.CloseSend` are called by the main goroutine only while the request
+    pump does not exist (or has exited); everything on the response side is called by the response pump only
+    (by construction of the step function). -/
+theorem C18_backing_single_owner {M E : Type} [DecidableEq M] [DecidableEq E] (p : Params) (s : State M E)
+    (hr : Reachable p s) :
+    (s.main = .uRecvPending → s.i2o = .absent) ∧ (s.main = .uSendPending → s.i2o = .absent) ∧
+    (s.main = .uCloseSend → s.i2o = .absent) ∧ (s.main = .loopCloseSend → s.i2o = .exited) :=
+  C02_single_owner p s hr
+
+/-- …and as a language statement on the incoming stream of the transcoding bridges (methods that are not
+    client-streaming): the calls Forward makes form a word of the discipline automaton — `Recv` once and first,
+    `SetHeader/SetTrailer/Send` never while a `Send` is pending, nothing after the return. -/
+theorem C18_backing_incoming_call_rules {M E : Type} [DecidableEq M] [DecidableEq E] (p : Params) (hcs : p.cs = false)
+    (tr : List (Label M E)) (s : State M E) (h : Run p tr s) :
+    GB.C10.HS.drun GB.C10.HS.dinit (tr.filterMap GB.C10.HS.kindOf) = some (GB.C10.HS.discOf s) :=
+  C10_forward_call_rules p hcs tr s h
+
+/-- "pump, then handler after Forward returned": when Forward has returned, both pumps have exited (wg.Wait), so
+    whatever the handler reads afterwards (`trailer`, the stream's flags) was written before — and while a pump is
+    still running Forward has not returned. -/
+theorem C18_backing_handler_after_pumps {M E : Type} [DecidableEq M] [DecidableEq E] (p : Params) (s : State M E)
+    (hr : Reachable p s) :
+    (isDone s = true → pumpsGone s = true) ∧ (pumpsGone s = false → isDone s = false) :=
+  ⟨fun hd => (C02_cleanup p s hr hd).2.1, C02_no_return_before_pumps p s hr⟩
+
+/-- "atomic publish + once + channel close→receive": a `ResolveNow` caller that won the once of generation `g` finds
+    `g` still current — the poller has not re-armed (not written `r.resolveNow` again) before this very close. -/
+theorem C18_backing_wakeup_protocol (manual : Bool) (s : GB.C15.W)
+    (h : GB.LTS.Reachable GB.C15.step (GB.C15.W.init manual) s) (i : Nat) (hw : (s.callers i).pc = .won) :
+    (s.callers i).gen = s.cur ∧ s.ppc ≠ .woken ∧ s.ppc ≠ .madeChan :=
+  C15_winner_closes_armed_channel manual s h i hw
+
+/-- "poller goroutine only": after any Add/Remove history the live pollers are exactly one per present target
+    (so `lastProtoHash`, `lastServicesHash`, `methodPriority` of a Resolver have one goroutine touching them). -/
+theorem C18_backing_one_poller_per_target (ops : List GB.C16.ROp) (N : Nat) (hN : ∀ op ∈ ops, GB.C16.opName op < N) :
+    GB.C16.pollers (GB.C16.afterR true ops) = GB.C16.targetCount (GB.C16.afterR true ops) N :=
+  (C16_pollers_eq_present ops N hN).1
+
+/-- Every confinement row names one of the mechanisms accounted for above or in the trusted base. -/
+theorem C18_confinement_mechanisms :
+    confinement.all (fun c => ["construction-time options, read-only afterwards", "construction-time options",
+      "poller goroutine only (watch → resolve → resolveWithMethod)", "poller goroutine only",
+      "atomic publish + once + channel close→receive (C15)", "function-local builder", "gws read loop goroutine only",
+      "send side, single owner", "send side, single owner (sendActive guard)",
+      "receive side, single owner (recvActive guard)",
+      "pump, then handler after Forward returned (wg.Wait)"].contains c.why) = true := by decide
+
+end ConfinementBacking
